@@ -17,13 +17,19 @@ Driver for C16.  Ops (one history per case; every token an integer, -1 = nil poi
   px <dry> <hasLim> <capNode> <capNs> <capTotal>   new framework + limiter
   pev <node> <ns> <plugOk> <fresh>      evictorProxy.Evict                 -> ev …
   pconc <fresh> <n> (<node> <ns>)*      n goroutines                       -> conc …
+ harness cycle (pkg/descheduler)
+  cy <dry> <capNode> <capNs> <capTotal>  new Descheduler + EvictionLimiter shared by its profiles
+  cyc <n1> <n2> (<node> <ns> <apiOk>)*   one deschedulerOnce: n1 attempts in the Deschedule phase, n2 in the Balance phase
+                                        -> a <ok> <called> per attempt, then ctr t … n … s … (limiter after the cycle)
  harness arb (pkg/descheduler/controllers/migration/arbitrator)
   cfg <maxGlobal> <maxNode> <maxNs> <maxMigr> <maxUnav>
   cfgx <mmKind> <muKind> <skipCheckExpectedReplicas> <n> <gate code>*      per-workload limit forms (0 nil/int, 1 percent, 2 malformed), SkipEvictionGates
   wl <id> <replicas> | pod <id> <node> <ns> <wl> <ready> <ann> [<terminating> <podphase>] | delpod <id> | ready <id> <b>
   term <id>                             pod gets a deletionTimestamp      | pphase <id> <podphase 0 Running 1 Pending 2 Succeeded 3 Failed>
   restart                               new arbitrator + filter, Create event for every job in the API -> state block
-  job <id> <pod> <ns> <phase> <passedAnn> <arbitrated> <waiting>          direct creation
+  job <id> <pod> <ns> <phase> <passedAnn> <arbitrated> <waiting> [<uid>]  direct creation; PodRef = namespace/name of pod <pod>
+                                        (0 = nil PodRef, an id no pod has = resolves to nothing) and UID of pod <uid>
+                                        (default <pod>; 0 = empty UID, an id no pod has = stale UID)
   create <id> <pod>                     arbitrator.Filter then create+Add  -> filter <b>
   phase <id> <phase>                    status change + handler.Update     -> state block
   round <nf> <failIds>* <no> <order>*   doOnceArbitrate                    -> wf <hypothesis WF of round_inv on the state before> + state block
@@ -55,6 +61,10 @@ structure DSt where
 
 def podsOf : List Int → List Pod
   | a :: b :: r => ⟨a.toNat, b.toNat⟩ :: podsOf r
+  | _ => []
+
+def triplesOf : List Int → List (Pod × Bool)
+  | a :: b :: c :: r => (⟨a.toNat, b.toNat⟩, c ≠ 0) :: triplesOf r
   | _ => []
 
 /-- sequential execution in index order (the concurrent harness only generates request sets
@@ -109,6 +119,14 @@ def runLine (d : DSt) (line : String) : DSt × List String :=
         if ps.length ≠ 2 * n.toNat then (d, ["bad-op"]) else
         let r := seqAll (fun c p => pxEvict d.lim d.dry c p true) d.ctr (podsOf ps)
         ({ d with ctr := r.1 }, [s!"conc {r.2.1} {r.2.2} {showCtr r.1}"])
+      -- descheduling cycle
+      | "cy", [dry, cn, cs, ct] =>
+        ({ d with lim := some ⟨optCap cn, optCap cs, optCap ct⟩, dry := dry ≠ 0, ctr := {} }, [])
+      | "cyc", n1 :: n2 :: ts =>
+        if ts.length ≠ 3 * (n1.toNat + n2.toNat) then (d, ["bad-op"]) else
+        let ops := triplesOf ts
+        let r := cycle d.lim d.dry d.ctr (ops.take n1.toNat) (ops.drop n1.toNat)
+        ({ d with ctr := r.1 }, (r.2.map fun o => s!"a {b2i o.ok} {b2i o.called}") ++ ["ctr " ++ showCtr r.1])
       -- arbitrator
       | "cfg", [mg, mn, ms, mm, mu] =>
         ({ d with cfg := { d.cfg with maxGlobal := mg, maxNode := mn, maxNs := ms, maxMigr := mm, maxUnav := mu } }, [])
@@ -138,7 +156,12 @@ def runLine (d : DSt) (line : String) : DSt × List String :=
             if p.id == id.toNat then { p with ready := b ≠ 0 } else p } }, [])
       | "job", [id, p, s, ph, pa, ar, w] =>
         let a := d.arb
-        ({ d with arb := { a with jobs := a.jobs ++ [⟨id.toNat, p.toNat, s.toNat, ph.toNat, pa ≠ 0⟩],
+        ({ d with arb := { a with jobs := a.jobs ++ [⟨id.toNat, p.toNat, s.toNat, ph.toNat, pa ≠ 0, p.toNat⟩],
+                                  arbitrated := if ar ≠ 0 then id.toNat :: a.arbitrated else a.arbitrated,
+                                  waiting := if w ≠ 0 then id.toNat :: a.waiting else a.waiting } }, [])
+      | "job", [id, p, s, ph, pa, ar, w, u] =>
+        let a := d.arb
+        ({ d with arb := { a with jobs := a.jobs ++ [⟨id.toNat, p.toNat, s.toNat, ph.toNat, pa ≠ 0, u.toNat⟩],
                                   arbitrated := if ar ≠ 0 then id.toNat :: a.arbitrated else a.arbitrated,
                                   waiting := if w ≠ 0 then id.toNat :: a.waiting else a.waiting } }, [])
       | "create", [id, p] =>
@@ -147,7 +170,7 @@ def runLine (d : DSt) (line : String) : DSt × List String :=
         | some pod =>
           let ok := arbFilter d.cfg d.arb pod
           let a := d.arb
-          let a' := if ok then { a with jobs := a.jobs ++ [⟨id.toNat, pod.id, pod.ns, 0, false⟩],
+          let a' := if ok then { a with jobs := a.jobs ++ [⟨id.toNat, pod.id, pod.ns, 0, false, pod.id⟩],
                                         waiting := id.toNat :: a.waiting } else a
           ({ d with arb := a' }, [s!"filter {b2i ok}"])
       | "phase", [id, ph] =>
